@@ -60,11 +60,11 @@ for _name in ("scheme", "raw_authority", "raw_user", "raw_password", "raw_host",
               "raw_query_string", "raw_fragment", "absolute", "host_subcomponent"):
     add(Contract(f"yarl._url:URL.{_name}", [("self", URLT)], spec=getattr(spec_url, _name),
                  requires=spec_url.netloc_ok if _name in ("raw_user", "raw_password", "raw_host", "host_subcomponent") else None,
-                 props=("C07", "C09", "C19")))
+                 props=("C07", "C09", "C19") + (("C16",) if "host" in _name else ())))
 add(Contract("yarl._url:URL.host_port_subcomponent", [("self", URLT)], spec=spec_url.host_port_subcomponent,
              requires=spec_url.netloc_ok, props=("C17", "C16", "C19")))
 add(Contract("yarl._url:URL.__str__", [("self", URLT)], spec=spec_url.str_,
-             requires=spec_url.str_requires, props=("C17", "C07", "C03", "C19")))
+             requires=spec_url.str_requires, props=("C17", "C07", "C03", "C19", "C16")))
 
 # ---------------------------------------------------------------- modifiers (C11, C17, C19)
 _OTHER = CONST(1.5, b"x")
@@ -101,9 +101,12 @@ add(Contract("yarl._url:URL.with_fragment", [("self", URLT), ("fragment", UNION(
              spec=spec_url.with_fragment, raises=(TypeError,), props=("C11", "C19", "C10", "C08", "C09")))
 
 # ---------------------------------------------------------------- constructors
+add(Contract("yarl._url:_idna_encode", [("host", STR)], spec=spec_url.idna_encode, raises=(UnicodeError,),
+             opaque=True, shape=STR, ensures=spec_url.idna_encode_ensures, props=("C16",),
+             note="both IDNA routes end in lower-case ASCII"))
 add(Contract("yarl._url:_encode_host", [("host", STR), ("validate_host", BOOL)], spec=spec_url.encode_host,
-             raises=(ValueError,), opaque=True, shape=STR, ensures=spec_url.encode_host_ensures, assumed=True,
-             props=(), note="assumed until C16's proof; conformance-tested"))
+             raises=(ValueError,), opaque=True, shape=STR, ensures=spec_url.encode_host_ensures,
+             props=("C16", "C03", "C09"), note="canonical host: IP literal / ASCII lower case / IDNA; brackets; validation"))
 add(Contract("yarl._path:normalize_path", [("path", STR)], spec=spec_path.normalize_path,
              opaque=True, shape=STR, props=("C15", "C14", "C19")))
 add(Contract("yarl._url:encode_url", [("url_str", STR)], spec=spec_url.encode_url, raises=(ValueError,),
